@@ -265,8 +265,16 @@ func init() {
 		k := int(atoi(tk[2]))
 		now := wt.Timestamp(atoi(tk[3]))
 		rel, _ := filepath.Rel(s.root, f.path)
-		dir := filepath.Dir(rel)
 		base := s.serverURL()
+		if len(tk) > 4 && tk[4] == "rel" {
+			// a server in a process of its own, started in the case directory with a RELATIVE base (the first
+			// element of the file's name): "whispertool server -base data"
+			r0, _ := filepath.Rel(s.dir, f.path)
+			top := strings.SplitN(r0, "/", 2)[0]
+			rel, _ = filepath.Rel(filepath.Join(s.dir, top), f.path)
+			base = s.serverURLRel(s.dir, top)
+		}
+		dir := filepath.Dir(rel)
 		ts := func(t wt.Timestamp) string { return url.QueryEscape(t.String()) }
 		urls := []string{
 			fmt.Sprintf("%s/view?file=%s&retention=-1&from=%s&until=%s&now=%s", base, url.QueryEscape(rel), ts(0), ts(now), ts(now)),
